@@ -84,6 +84,38 @@ theorem verify_total_1024 (chk : Bool) (P : Verify.Params) (c s h : List Nat) (h
     ∃ b, Verify.verifyCore chk P 1024 c s h = .ok b :=
   verify_core_total chk 10 (by decide) P c s h hc hh
 
+/-- **the public entry point never panics**: for both variants, every message, every byte string offered as a
+    signature and every byte string offered as a public key, `verify` behind the two `from_bytes` calls returns
+    (`none` = a decoder returned `Err`, `some b` = the verdict) — in both build modes.  The only hypothesis is about
+    SHAKE-256: that the stream of `salt ‖ msg` contains n words below 5q within the model's squeezing budget (the
+    real loop squeezes without a budget; it cannot panic, it could only fail to terminate, with probability 0). -/
+theorem verify_bytes_total (chk : Bool) (N : Nat) (hN : N = 512 ∨ N = 1024) (msg sig pk : List Nat)
+    (hpk : ∀ x ∈ pk, x < 256)
+    (hhash : ∀ salt s, KeyCodec.sigFromBytes N sig = .ok (.ok (salt, s)) →
+      (Hash.hashToPoint (salt ++ msg) N).length = N) :
+    ∃ r, Verify.verifyBytes chk N msg sig pk = .ok r := by
+  unfold Verify.verifyBytes
+  obtain ⟨rs, hrs⟩ := signature_from_bytes_total N sig
+  rw [hrs]
+  match rs, hrs with
+  | .error _, _ => exact ⟨_, rfl⟩
+  | .ok (salt, s), hrs =>
+    obtain ⟨rp, hrp⟩ := public_key_from_bytes_total N pk
+    simp only [Res.bind_ok, hrp]
+    match rp, hrp with
+    | .error _, _ => exact ⟨_, rfl⟩
+    | .ok h, hrp =>
+      have hl := (KeyCodec.pk_strict N pk hpk h hrp).2.1
+      have hc := hhash salt s hrs
+      have hv : ∃ b, Verify.verify chk N msg salt s h = .ok b := by
+        unfold Verify.verify
+        rcases hN with rfl | rfl
+        · exact verify_total_512 chk _ _ s h hc hl
+        · exact verify_total_1024 chk _ _ s h hc hl
+      obtain ⟨b, hb⟩ := hv
+      simp only [hb, Res.bind_ok]
+      exact ⟨_, rfl⟩
+
 /-- `batch_inverse_or_zero` (used when a secret key is decoded and when the public key is derived) never panics
     on canonical residues, whatever zeros the batch contains (a non-invertible f gives zeros, not a panic) -/
 theorem batch_inverse_total (chk : Bool) (xs : List Nat) (hx : ∀ x ∈ xs, x < Zq.q) :
